@@ -37,6 +37,8 @@ type Manifest struct {
 	Entries []Entry  `json:"entries"`
 	// rendering choices that carry no meaning (indentation, blank lines, padding): seed of the layout
 	Layout int `json:"layout"`
+	// NoBlock: a Gradle script without entries is written without any top-level `dependencies` block (plugins-only script)
+	NoBlock bool `json:"noBlock"`
 }
 
 type Import struct {
